@@ -43,24 +43,37 @@ def run_programs(rep, progs, tag, props_for_panic=("C02", "C03")):
     ic = ['(run-ty "' + esc(sast.program(p)) + '")' for p in progs]
     env = {"VERIF_HELPERS": HELPERS}
     mo = common.run_cases(common.DRIVER, mc, env=env, timeout=900)
-    io = common.run_cases(common.HARNESS, ic, timeout=900)
+    # model first: a program on which the model runs out of fuel (or time) is not sent to the
+    # implementation, where it would spin until the shard timeout
+    live = [k for k in range(len(progs)) if not mo[k].startswith(("!fuel", "!timeout", "!died"))]
+    lo = common.run_cases(common.HARNESS, [ic[k] for k in live], timeout=300)
+    io = ["!skipped"] * len(progs)
+    for k, o in zip(live, lo):
+        io[k] = o
     rep.evaluations += 2 * len(progs)
     rep.compared += len(progs)
     rep.distinct.update(ic)
     typed = []
+    # a panic is attributed to the phase it happens in: Code::parse alone is run again on the
+    # programs that panicked ((parse-ty ..)); when that returns, the panic was at run time (C02),
+    # otherwise inside the parser/checker (C03)
+    pk = [k for k in range(len(progs)) if io[k].startswith("!panic")]
+    po = common.run_cases(common.HARNESS, ['(parse-ty "' + esc(sast.program(progs[k])) + '")' for k in pk], timeout=120)
+    panic_phase = {k: ("parse" if o.startswith("!") else "exec") for k, o in zip(pk, po)}
     for k, p in enumerate(progs):
         m, i = norm_model(mo[k]), norm_impl(io[k])
         rep.count(f"{tag}.impl.{classify(i)}")
         if i.startswith("!panic"):
-            rep.violations.append({"property": "C02" if "exec" in mo[k] or m.startswith(("ok", "err")) else "C03",
+            rep.violations.append({"property": "C02" if panic_phase.get(k) == "exec" else "C03",
                                    "lane": tag, "what": "implementation panics: " + io[k][:160],
                                    "program": sast.program(p), "case": ic[k]})
-        if i.startswith("!died") or i.startswith("!timeout"):
-            rep.count(f"{tag}.inconclusive")
-            continue
-        if m.startswith("!fuel"):
+        if m.startswith(("!fuel", "!timeout", "!died")):
             rep.count(f"{tag}.model-fuel")
             continue
+        if i.startswith("!died") or i.startswith("!timeout"):
+            # the model finished and the implementation (run on its own, see common._run_shard)
+            # did not: reported as a disagreement
+            rep.count(f"{tag}.impl-no-result")
         if m != i:
             rep.disagreements.append({"lane": tag, "case": ic[k], "model": m, "impl": i,
                                       "program": sast.program(p), "model_case": mc[k], "ast": p})
@@ -123,8 +136,12 @@ def shrink_disagreement(d, budget=120):
     def outs(p):
         mc = "(prog-ty " + " ".join(sast.sx(l) for l in p) + ")"
         ic = '(run-ty "' + esc(sast.program(p)) + '")'
-        m = norm_model(common.run_cases(common.DRIVER, [mc], env=env)[0])
-        i = norm_impl(common.run_cases(common.HARNESS, [ic])[0])
+        m = norm_model(common.run_cases(common.DRIVER, [mc], env=env, timeout=60)[0])
+        if m.startswith("!fuel") or m.startswith("!timeout"):
+            # a candidate that does not terminate in the model (a removed loop increment, say) is
+            # never sent to the implementation: it would spin there until the shard timeout
+            return "!fuel", "!timeout", mc, ic
+        i = norm_impl(common.run_cases(common.HARNESS, [ic], timeout=20)[0])
         return m, i, mc, ic
 
     def bad(p):
